@@ -23,7 +23,7 @@ from harness import gen_offsets as GO
 from harness.props import c05 as P5
 
 PROP = 'C08'
-MODELS = ['Model/Components.vo']   # .vo files the generated case files import
+MODELS = ['Model/Components.vo', 'Model/Views.vo', 'Model/ViewsCase.vo']   # .vo files the generated case files import
 PRE = 'From Spowtd Require Import Model.Components.\nClose Scope Q_scope.\n'
 
 
@@ -481,12 +481,15 @@ def check_command_level(plans, out, label):
     """`rise` / `recession` through the CLI: the stored master curve must be the one obtained from the stored
     crossings with a different internal zero and presentation order, origin at its highest level."""
     from harness import curves_common as CC
+    view_items = []
     for plan in plans:
         res = CC.build_from_plan(PROP, plan, name='cl_' + label)
         out.evaluations += 1
         out.count('CL:%s' % res['status'])
         if res['status'] != 'ok':
             continue
+        # the same views against Model/Views.v evaluated inside Coq (C08_line_segments_only_main_body is about that model)
+        view_items.append((CC.dump_views(res['db']), dict(level='CL', plan=plan, kind='views')))
         gstep = plan['grid_step']
         if plan.get('far_group'):
             out.count('CL:%d storm(s) planted far below the main body' % plan['far_group'])
@@ -522,6 +525,7 @@ def check_command_level(plans, out, label):
             if len({r[0] for r in rows}) >= 3:
                 out.nontriv(('cl', kind, len(rows), n_at_top))
             out.count('CL:%s:intervals at top level=%d' % (kind, min(n_at_top, 4)))
+    CC.check_views_coq(PROP, label + '_views', view_items, out)
 
 
 def run(ctx, out):
